@@ -6,8 +6,16 @@ spec/CoopClose:
           commit fees, dust limits either way round) x fees around every threshold x either payer; TLC-generated
           behaviours + a seeded free-running driver replayed on real lnwallet channel pairs of 8 channel types
           (MuSig2 for taproot) by harness/lnwallet/c17_test.go; CoopCloseTrace judges.
-  RBF-coop (coarse): single closing_complete/closing_sig rounds through the real rbf_coop transition functions of
-          both parties (harness/lnwallet/chancloser/c17_rbf_test.go), judged as RbfRound.
+  RBF-coop lnd<->lnd: TLC-generated multi-round histories between two real protofsm RbfChanCloser machines over real
+          channels of 7 types (MuSig2 nonce exchange on the taproot ones), judged as RbfOffer; single rounds through
+          the bare transition functions, judged as RbfRound (harness/lnwallet/chancloser/c17_rbf_test.go).
+  part III (one real node against an arbitrary honest BOLT-2 peer): the closer's free choices - nLockTime, fee, a new
+          delivery script, the signature field its dust rule prescribes, a second closing_complete in flight - and the
+          closee's answer are model-driven (PeerOffer / PeerReply); the node's ClosingNegotiation / RemoteCloseStart /
+          LocalCloseStart / LocalOfferSent are transcribed (NodeReply / NodeOffer).  TLC exhaustive (PeerSpec), TLC-
+          generated histories replayed on ONE real protofsm RbfChanCloser over a real channel with the other
+          LightningChannel as the peer's signing device (harness/lnwallet/chancloser/c17_peer_test.go); CoopCloseTrace
+          judges (kind "peer": the node counter-signs exactly the described transaction, lock time included).
   part II (legacy fee negotiation): calcCompromiseFee / ratchetFee / feeInAcceptableRange / max-fee abort /
           taproot first-offer rule; TLC exhaustive over all ideal-fee pairs of a range; TLC-sampled and random
           configurations run between two real ChanClosers over real channels by
@@ -23,11 +31,18 @@ LEVEL = "model_checking"
 
 PROFILE = {
     "quick": dict(mc_tx=["CoopCloseMC_tx.cfg"], mc_neg=[("CoopCloseMC_neg.cfg", {})],
-                  tx_n=70, tx_free=25, neg_n=260, neg_free=120, rbf_n=40, rbfm_n=120),
+                  tx_n=70, tx_free=25, neg_n=260, neg_free=120, rbf_n=40, rbfm_n=120, peer_n=150,
+                  mc_peer=[("CoopCloseMC_peer.cfg", {"PeerDepth": 3}, "interleaved histories, depth 3")],
+                  wit_peer=[]),
     "thorough": dict(mc_tx=["CoopCloseMC_tx.cfg", "CoopCloseMC_tx_thorough.cfg"],
                      mc_neg=[("CoopCloseMC_neg.cfg", {"Step": 1}),
                              ("CoopCloseMC_neg.cfg", {"Lo": 100, "Hi": 6000, "Step": 23, "MaxRounds": 46})],
-                     tx_n=500, tx_free=150, neg_n=1200, neg_free=500, rbf_n=300, rbfm_n=1500),
+                     tx_n=500, tx_free=150, neg_n=1200, neg_free=500, rbf_n=300, rbfm_n=1500, peer_n=1500,
+                     mc_peer=[("CoopCloseMC_peer.cfg", {"PeerDepth": 5}, "interleaved histories, depth 5"),
+                              ("CoopCloseMC_peer_wide.cfg", {}, "one round over the channel grid")],
+                     wit_peer=["NeverNonZeroLockTimeSigned", "NeverLabelRefusal", "NeverCloseeOnlyAccepted",
+                               "NeverCloserOnlyAccepted", "NeverTwoInFlight", "NeverPeerAccepts", "NeverPeerRefuses",
+                               "NeverStale"]),
 }
 
 
@@ -216,8 +231,66 @@ def part_neg(ck, prof):
                 lambda r: r["a"] == "NegEnd" and r["txeq"] == 1, lambda r: r.__setitem__("txeq", 0))
 
 
-def part_rbf(ck, prof):
-    """Coarse RBF-coop coverage: (a) TLC-generated multi-round histories (either closer, fee bumps/drops, the closer
+PEER_ACTS = ("POffer", "NReply", "NOffer", "PReply", "NSig")
+
+
+def peer_stats(ck, recs):
+    """Evidence and vacuity guard of part III from the traces executed on the real node."""
+    steps = [r for r in recs if r["a"] in PEER_ACTS]
+    ck.cov["evaluations"] += len(steps)
+    ck.cov["traces_validated_against_impl"] += sum(1 for r in recs if is_reset(r))
+    distinct, cls, cur, view = set(), {}, None, None
+    inflight, two = 0, 0
+    for r in recs:
+        if is_reset(r):
+            cur, view, inflight = r, r["view"], 0
+        elif r["a"] == "Inject":
+            view = r["view"]
+        elif r["a"] in PEER_ACTS:
+            distinct.add(core.sha(str((cur["type"], cur["opener"], cur["dust"], cur["node"], cur["envh"], view,
+                                      r["a"], r["x"], r["k"], r["lt"], r["f"], r["pres"], r["msg"]))))
+            k = "%s: %s" % (r["a"], r["pres"])
+            cls[k] = cls.get(k, 0) + 1
+            if r["a"] == "POffer":
+                inflight += 1
+                two += inflight >= 2
+            elif r["a"] in ("NReply", "NSig"):
+                inflight -= 1
+            elif r["a"] == "PReply" and r["pres"] == "ok":
+                inflight += 1
+    ck.cov["distinct_nontrivial"] += len(distinct)
+    ck.cov["peer_step_outcomes"] = cls
+    nrep = [r for r in recs if r["a"] == "NReply" and r["pres"] == "ok"]
+    wit = {
+        "node counter-signed a non-zero lock time": sum(1 for r in nrep if r["msg"]["lt"] != 0),
+        "node accepted closer_output_only": sum(1 for r in nrep if r["nout"][r["p"]] == 1 and r["msg"]["F"]["closer"] == 1),
+        "node accepted a one-output close of its own output (closee_output_only)":
+            sum(1 for r in nrep if r["nout"][r["p"]] == 1 and r["msg"]["F"]["closer"] == 0),
+        "node refused on its dust label (nosig)": sum(1 for r in recs if r["a"] == "NReply" and r["pres"] == "nosig"),
+        "node refused a fee above the peer's settled balance": sum(1 for r in recs if r["a"] == "NReply" and r["pres"] == "cantpay"),
+        "two closing_completes in flight": two,
+        "node's offer completed by the peer and by the node": sum(1 for r in recs if r["a"] == "NSig" and r["pres"] == "ok"),
+        "node's closing_sig overtaken by no later closing_complete (sig queued behind an offer)":
+            sum(1 for i, r in enumerate(recs) if r["a"] == "NSig" and i > 0 and recs[i - 1]["a"] == "NReply"),
+        "node's offer refused by the peer": sum(1 for r in recs if r["a"] == "PReply" and r["pres"] != "ok"),
+        "peer moved to a new delivery script": sum(1 for r in recs if r["a"] == "POffer" and r["k"] != 0),
+    }
+    ck.cov["peer_witnesses"] = wit
+    must = ["node counter-signed a non-zero lock time", "node refused on its dust label (nosig)",
+            "two closing_completes in flight", "node's offer completed by the peer and by the node",
+            "node's offer refused by the peer"]
+    if not ck.violations and not ck.known_hits and any(wit[m] == 0 for m in must):
+        raise Inconclusive("part III: a class of steps was never executed: %s" % wit)
+    ok = next((i for i, r in enumerate(recs) if r["a"] == "NReply" and r["pres"] == "ok" and r["msg"]["lt"] != 0), None)
+    if ok is not None:
+        a = max(i for i in range(ok + 1) if is_reset(recs[i]))
+        ck.cov["samples"].append({"peer_history": [
+            {k: r[k] for k in ("a", "p", "x", "k", "lt", "f", "pres", "res", "msg", "ltx", "txeq", "node", "envh", "type") if k in r}
+            for r in recs[a:ok + 1]]})
+
+
+def part_rbf(ck, prof, only=""):
+    """RBF-coop coverage: (a) TLC-generated multi-round histories (either closer, fee bumps/drops, the closer
     moving to another delivery script with its offer) between two real protofsm RbfChanCloser machines over real
     channels, judged as the spec's RbfOffer (+ ConformScripts, TermsAgree); (b) single rounds through the bare
     transition functions (seeded driver), judged as RbfRound."""
@@ -232,18 +305,53 @@ def part_rbf(ck, prof):
                    constants={"RbfDepth": 4 if ck.tier == "quick" else 6}, workers=4, timeout=900)
     files = ck.generate(SPEC, "CoopCloseGen", "CoopCloseGen_rbf.cfg", prof["rbfm_n"], 20, name="gen_rbf",
                         prefix="r_", timeout=900)
+    # part III: model-checked, then TLC-generated histories for one real node against the model-driven peer
+    for cfg, consts, what in prof["mc_peer"]:
+        ck.model_check(SPEC, "CoopCloseMC", cfg, "part III (node vs honest BOLT-2 peer): " + what,
+                       constants=consts or None, workers=4, timeout=1500)
+    for w in prof["wit_peer"]:
+        witness(ck, "CoopCloseMC_wit_peer_%s.cfg" % w, "part III " + w, w)
+    pfiles = ck.generate(SPEC, "CoopCloseGen", "CoopCloseGen_peer.cfg", prof["peer_n"], 20, name="gen_peer",
+                         prefix="p_", timeout=900)
 
     def describe(hdr, bad):
         return "RBF round, channel type %s, dust %s, closer %s fee %s script %s, announced %s" % (
             hdr.get("type"), hdr.get("dust", {}).get("A"), bad.get("p"), bad.get("x"), bad.get("k"), bad.get("ann"))
-    both = ["lnwallet/chancloser/c17_test.go", "lnwallet/chancloser/c17_rbf_test.go"]
-    runs = [("rbfm", "^TestVerifC17RbfMulti$", {"VERIF_SCHED": os.path.dirname(files[0])}, "RbfM"),
+    def describe_peer(hdr, bad):
+        return "node %s (Environment.BlockHeight %s) against the model-driven peer, channel type %s, opener %s, dust %s: %s" % (
+            hdr.get("node"), hdr.get("envh"), hdr.get("type"), hdr.get("opener"), hdr.get("dust", {}).get("A"),
+            {k: bad.get(k) for k in ("a", "p", "x", "k", "lt", "f", "sched", "pres", "errs")})
+    both = ["lnwallet/chancloser/c17_test.go", "lnwallet/chancloser/c17_rbf_test.go",
+            "lnwallet/chancloser/c17_peer_test.go"]
+    # the multi-round and the part III executors run in ONE go test invocation (one test binary build)
+    runs = [("rbfm", "^TestVerifC17(RbfMulti|Peer)$" if only != "peer" else "^TestVerifC17Peer$",
+             {"VERIF_SCHED": os.path.dirname(files[0]), "VERIF_SCHED_PEER": os.path.dirname(pfiles[0])}, "RbfM"),
             ("rbf", "^TestVerifC17RbfRound$", {"VERIF_RBF": prof["rbf_n"]}, "Rbf")]
+    if only == "peer":
+        runs = runs[:1]
     outcomes = {}
     for kind, test, env, act in runs:
         res = ck.go_test("./lnwallet/chancloser/", test, both, env=env, name="exec_" + kind, timeout=2400,
                          extra_overlay={"lnwallet/test_utils.go": low})
         trace = os.path.join(res["dir"], "trace.ndjson")
+        if kind == "rbfm":
+            ptrace = os.path.join(res["dir"], "trace_peer.ndjson")
+            if res["rc"] == 0 and (not os.path.exists(ptrace) or os.path.getsize(ptrace) == 0):
+                raise Inconclusive("part III executor wrote no trace:\n" + res["out"][-3000:])
+            if res["rc"] == 0:
+                precs, pok = judge(ck, ptrace, "peer", describe_peer)
+                peer_stats(ck, precs)
+                if pok and not ck.violations:
+                    nz = lambda r: r["a"] == "NReply" and r["pres"] == "ok" and r["msg"]["lt"] != 0
+                    control(ck, precs, "part III: lock time of the node's completed transaction recorded as 0", nz,
+                            lambda r: r["ltx"].__setitem__(r["p"], 0))
+                    if ck.tier != "quick":
+                        control(ck, precs, "part III: an accepted closing_complete recorded as refused (bad signature)", nz,
+                                lambda r: (r["res"].__setitem__(r["p"], "badsig"), r.__setitem__("pres", "badsig")))
+            if only == "peer":
+                if res["rc"] != 0:
+                    raise Inconclusive("part III executor failed:\n" + res["out"][-3000:])
+                return
         if res["rc"] != 0 or not os.path.exists(trace) or os.path.getsize(trace) == 0:
             if "panic:" in res["out"]:
                 ck.violation("C17:%s:panic" % kind, "real rbf_coop code panicked",
@@ -270,6 +378,16 @@ def part_rbf(ck, prof):
                     cur[r["p"]] = r["k"]
                     done_local.add(r["p"])
             ck.cov["rbf_bumps_after_peer_script_change"] = n
+            per, cur_t = {}, None
+            for r in recs:
+                if is_reset(r):
+                    cur_t = r["type"]
+                elif r["a"] == "RbfM":
+                    k = "%s: %s" % (cur_t, r["res"]["A"])
+                    per[k] = per.get(k, 0) + 1
+            ck.cov["rbfm_rounds_per_type"] = per
+            if not ck.violations and not any(k.startswith("taproot") and k.endswith(": ok") for k in per):
+                raise Inconclusive("no completed RBF round on a taproot channel: %s" % per)
             ck.cov["samples"].append({"rbf_history": [
                 {k: r[k] for k in ("a", "p", "x", "k", "res", "ann", "sidx", "txeq") if k in r} for r in recs[1:6]]})
         if ok and not ck.violations:
@@ -291,8 +409,8 @@ def run(ck):
         part_tx(ck, prof)
     if only in ("", "neg"):
         part_neg(ck, prof)
-    if only in ("", "rbf"):
-        part_rbf(ck, prof)
+    if only in ("", "rbf", "peer"):
+        part_rbf(ck, prof, only)
     ck.cov["exhaustive"] = True
     ck.cov["rule"] = (
         "evaluations = closes executed by both sides of a real channel pair (CreateCloseProposal + "
@@ -307,11 +425,19 @@ def run(ck):
         "btcd txscript engine (validity of the completed tx against the funding output; implies both signatures verify)",
         "executor projections: outputs attributed to owners by delivery script, error classes by message text",
         "harness copy of peer.MusigChanCloser (adapter between ChanCloser and lnwallet.MusigSession) for taproot negotiations",
-        "transcription of lnwallet.CoopCloseBalance/CreateCooperativeCloseTx and chancloser.go into spec/CoopClose"]
+        "transcription of lnwallet.CoopCloseBalance/CreateCooperativeCloseTx and chancloser.go into spec/CoopClose",
+        "part III: the executor's peer (the other LightningChannel as signing device; every choice comes from the TLC schedule) and the "
+        "reading of BOLT 2 option_simple_close written into PeerOffer/PeerReply/HonestFields/Select/Desc"]
     ck.assumptions += [
         "fixture capacity lowered to 1 000 000 sat (part I) so msat values fit TLC's 32-bit integers; negotiations run on the 10 BTC fixture and only fees/equality bits are compared",
         "channel is quiescent (no HTLCs) and both parties' local commitments describe the same state - checked on every recorded state (ConformSynced), produced by real add/settle/update_fee round trips or by writing the split into both channel states",
         "the fixture's initiator (alice) always plays the opener; 'both roles' = opener's dust limit larger/smaller, opener on the small side or not, either party paying (WithCustomPayer), either party asking for the close",
         "no aux/custom-channel extra outputs, no OP_RETURN delivery scripts",
-        "RBF-coop flow, coarse: (a) its close options as they reach lnwallet (closer pays via WithCustomPayer, custom sequence, lock time 0) in part I for all 8 channel types; (b) TLC-generated multi-round histories between two real protofsm RbfChanCloser machines (started in ClosingNegotiation, real non-taproot channels, adapters forwarding closing_complete/closing_sig): rounds by either side, fee bumps and drops, the closer moving to another delivery script with its offer (the harness plays a peer that can change its address by rewriting that machine's own LocalDeliveryScript in the shared close terms); judged as RbfOffer: closer's pre-check, the part I transaction, announced closer/closee scripts and the scripts every output pays = current close terms (ConformScripts, TermsAgree); (c) single rounds through the bare transition functions. Not modelled: shutdown/flush states, closer_output_only/closee_output_only field selection, taproot nonce handling, fee monotonicity, message reordering between rounds",
-        "negotiation: honest peers, in-order delivery, one message in flight"]
+        "RBF-coop flow, coarse: (a) its close options as they reach lnwallet (closer pays via WithCustomPayer, custom sequence, lock time 0) in part I for all 8 channel types; (b) TLC-generated multi-round histories between two real protofsm RbfChanCloser machines (started in ClosingNegotiation, real channels of 7 types - on the 3 taproot types with the MuSig2 sessions peer.Brontide installs and the real nonce exchange: closee nonces as from shutdown, JIT closer nonce with closing_complete, next closee nonce with closing_sig - adapters forwarding closing_complete/closing_sig): rounds by either side, fee bumps and drops, the closer moving to another delivery script with its offer (the harness plays a peer that can change its address by rewriting that machine's own LocalDeliveryScript in the shared close terms); judged as RbfOffer: closer's pre-check, the part I transaction, announced closer/closee scripts and the scripts every output pays = current close terms (ConformScripts, TermsAgree); (c) single rounds through the bare transition functions. Not modelled: shutdown/flush states (incl. the early-offer stash of ChannelFlushing), fee monotonicity, message reordering between rounds; the nonces themselves are not modelled (a wrong nonce shows as a refused round or an invalid transaction); signature-field selection is judged in part III only",
+        "negotiation: honest peers, in-order delivery, one message in flight",
+        "part III (node vs arbitrary honest peer): non-taproot channel types; the peer fills exactly ONE signature field (the one its "
+        "dust rule prescribes; BOLT's additional closer_output_only next to closer_and_closee_outputs is not sent); lock times "
+        "0/1/height; the node's own delivery script never changes; Environment.BlockHeight 0 (production) or the current height "
+        "(O3: then every offer of the node is refused by an honest closee - named deviation); the node's dust labels by network "
+        "dust limit on settled balances vs the builder's channel dust limits on credited balances (O4) are modelled as named "
+        "refusals (NamedRefusals), not judged as violations"]
